@@ -174,7 +174,29 @@ pub fn check_hist(ctx: &Ctx, pool: &Pool, hist: &[Rec]) -> Check {
         e.count += 1;
         e.last = r.ts;
         e.kinds.insert(r.kind);
-        collect_values(&js, &mut e.values);
+        // provenance is judged against the record as the application emits it (main() serialises the record after
+        // update_snapshot, which may withdraw registers from it, e.g. an ambiguous BDS 5,0 / 6,0 pair) ...
+        let mut raw = BTreeSet::new();
+        collect_values(&js, &mut raw);
+        match ans["records"].get(idx) {
+            Some(emitted) if emitted.is_object() => {
+                let mut shown = BTreeSet::new();
+                let mut em = emitted.clone();
+                if let Value::Object(m) = &mut em {
+                    // envelope of the timed record, not decoded content
+                    for k in ["timestamp", "frame", "metadata"] {
+                        m.remove(k);
+                    }
+                }
+                collect_values(&em, &mut shown);
+                // ... and the application may only take information away from a record, never add to it
+                if let Some(extra) = shown.iter().find(|v| !raw.contains(*v)) {
+                    return Err(fail("record-gained-a-value", format!("record #{idx} of {:06x} is emitted with {extra}, which its own decoding does not contain", addr_of(r.ac))));
+                }
+                e.values.extend(shown);
+            }
+            _ => return Err(fail("harness-no-emitted-record", format!("driver returned no emitted JSON for record #{idx}"))),
+        }
     }
     // one entry per address seen, keyed by the displayed address
     let keys: BTreeSet<String> = ans["keys"].as_array().map(|a| a.iter().filter_map(|x| x.as_str().map(|s| s.to_string())).collect()).unwrap_or_default();
